@@ -408,6 +408,59 @@ async def _oracle_case(chunks, unsplit_cache=None):
     return fails, base
 
 
+async def _collect(kind: str, chunks, suspend: bool, fail_after: int | None = None):
+    """One helper over one response whose byte source suspends between chunks (so that concurrent decodes really interleave) and
+    optionally dies with httpx.ReadError after `fail_after` chunks."""
+    R = _impl()
+    httpx, sh = R["httpx"], R["sh"]
+
+    class S(httpx.AsyncByteStream):
+        async def __aiter__(self):
+            for i, c in enumerate(chunks):
+                if fail_after is not None and i >= fail_after:
+                    raise httpx.ReadError("connection dropped")
+                if suspend:
+                    await asyncio.sleep(0)
+                yield c
+    r = httpx.Response(200, stream=S())
+    out = []
+    try:
+        if kind == "sse":
+            async for e in sh.iter_sse(r):
+                out.append(_ev(e, True))
+        elif kind == "text":
+            async for t in sh.iter_sse_events_text(r):
+                out.append(t)
+        else:
+            async for item in sh.iter_ndjson(r):
+                out.append(item)
+    except httpx.ReadError:
+        out.append("<ReadError>")
+    except ValueError:
+        out.append(ERR)
+    return out
+
+
+async def _cross_stream_failures(a_chunks, b_chunks, cache):
+    """Decoding one response must not depend on other responses of the process: two streams decoded concurrently (their chunks
+    interleave), and a stream decoded after another one died mid-event, give what each gives alone and unsplit."""
+    fails = []
+    a, b = b"".join(a_chunks), b"".join(b_chunks)
+    for kind in ("sse", "text", "ndjson"):
+        base_a = (cache.get(a) or await _real_all([a], retry=True, with_bytes=True))[kind]
+        base_b = (cache.get(b) or await _real_all([b], retry=True, with_bytes=True))[kind]
+        ga, gb = await asyncio.gather(_collect(kind, a_chunks, True), _collect(kind, b_chunks, True))
+        case = {"scenario": "concurrent", "helper": kind, "a_chunks_hex": [c.hex() for c in a_chunks], "b_chunks_hex": [c.hex() for c in b_chunks]}
+        if ga != base_a or gb != base_b:
+            fails.append({"class": "cross-stream-state", "case": case, "observed": {"a": ga, "b": gb}, "expected": {"a": base_a, "b": base_b}})
+        if len(a_chunks) >= 2:
+            await _collect(kind, a_chunks, False, fail_after=max(1, len(a_chunks) // 2))
+            gb2 = await _collect(kind, b_chunks, False)
+            if gb2 != base_b:
+                fails.append({"class": "cross-stream-state", "case": {**case, "scenario": "after-dropped-connection"}, "observed": {"b": gb2}, "expected": {"b": base_b}})
+    return fails
+
+
 def _spec_failures(b: bytes, base):
     fails = []
     case = {"chunks_hex": [b.hex()]}
@@ -459,11 +512,28 @@ async def _oracle(seed, scale):
                 per_class[f["class"]] += 1
                 if len(failures) < 200:
                     failures.append(f)
+    # cross-stream scenarios on pairs of long streams (chunk boundaries between the lines of one event)
+    per_class["cross-stream-state"] = 0
+    pairs = N(40)
+    for i in range(pairs):
+        a, b2 = rng.choice(longs), rng.choice(longs)
+        ca = _random_chunking(rng, a) if i % 2 else [a[j:j + 7] for j in range(0, len(a), 7)] or [a]
+        cb = _random_chunking(rng, b2) if i % 3 else [b2[j:j + 5] for j in range(0, len(b2), 5)] or [b2]
+        fl = await _cross_stream_failures(ca, cb, cache)
+        evaluations += 6
+        for f in fl:
+            per_class[f["class"]] += 1
+            if len(failures) < 200:
+                failures.append(f)
     return {"evaluations": evaluations, "failures": failures, "failures_per_class": per_class,
             "streams": len(spec_done)}
 
 
 def replay(case) -> bool:
+    if "a_chunks_hex" in case:
+        async def go2():
+            return bool(await _cross_stream_failures([bytes.fromhex(h) for h in case["a_chunks_hex"]], [bytes.fromhex(h) for h in case["b_chunks_hex"]], {}))
+        return asyncio.run(go2())
     chunks = [bytes.fromhex(h) for h in case["chunks_hex"]]
 
     async def go():
